@@ -463,9 +463,9 @@ def main():
         sha_impl.append(sha1(b).hexdigest())
 
     async def go():
-        for k in range(500 if not chk.thorough else 12000):
+        for k in range(500 if not chk.thorough else 60000):
             await run_case(chk, rng, lines, impl, sha_lines, sha_impl)
-        for k in range(120 if not chk.thorough else 3000):
+        for k in range(120 if not chk.thorough else 12000):
             await run_overlap(chk, rng, lines, impl)
 
     asyncio.run(go())
